@@ -127,6 +127,10 @@ class FnS(Fn):
         bad(s, "statement")
 
     loop_cont = None
+    loop_monadic = False
+
+    def in_monadic(self):
+        return self.loop_monadic if self.loop_cont is not None else self.monadic()
 
     # ------------------------------------------------------------------ simple statements
     def assert_(self, s, env, nxt):
@@ -313,7 +317,7 @@ class FnS(Fn):
                 return self.seq(self.set_self_attr(
                     attr, "(py_setdefault_append (a_%s self) %s %s)" % (attr, k, self.coerce(v, vty, "OQ", s))), nxt, env)
             lty = env.get(n)
-            elt = {"LZ": "Z", "LOQ": "OQ", "LQ": "Q", "LREC": "rec", "LP": "P"}.get(lty)
+            elt = {"LZ": "Z", "LOQ": "OQ", "LQ": "Q", "LREC": "rec", "LP": "P", "LN": "node"}.get(lty)
             if elt is None:
                 bad(s, "append to %s" % (lty,))
             if elt == "P":
@@ -387,6 +391,8 @@ class FnS(Fn):
             return self.wrap_pre("if %s\n  then %s\n  else %s" % (c, a, b))
         vs = [v for v in assigned(s.body) + [v for v in assigned(s.orelse) if v not in assigned(s.body)]]
         both = set(assigned(s.body)) & set(assigned(s.orelse))
+        if s.orelse and always_exits(s.orelse):
+            both = set(assigned(s.body))        # the other branch leaves the function / iteration
         vs = [v for v in vs if (v in env and env[v] != "ALIAS") or v == "self" or
               (v in both and v not in ("sel", "sna"))]
         vs = [v for v in vs if not (v == "self" and self.kind != "method")]
@@ -399,7 +405,7 @@ class FnS(Fn):
             for v in vs:
                 if v != "self" and v not in e2:
                     bad(s, "variable %s not defined at the end of a branch" % v)
-            return self.ret(self.tup(vs))
+            return ("Ok " + self.tup(vs)) if self.in_monadic() else self.tup(vs)
         saved_alias = dict(self.alias)
         a = self.block(s.body, env, endk)
         self.alias = dict(saved_alias)
@@ -414,7 +420,7 @@ class FnS(Fn):
                 env2[v] = tys.pop()
         rest_txt = nxt(env2)
         self.pre = pre
-        if self.monadic():
+        if self.in_monadic():
             return self.wrap_pre("py_bind (if %s\n  then %s\n  else %s) (fun %s =>\n  %s)"
                                  % (c, a, b, self.pat(vs), rest_txt))
         return self.wrap_pre("let %s := (if %s\n  then %s\n  else %s) in\n  %s" % (self.pat(vs), c, a, b, rest_txt))
@@ -788,8 +794,9 @@ def generate(repo):
             trees[path] = ast.parse(f.read())
     out = ["(* GENERATED by py/dv/gen_splitdist.py from datamodel/treecollectionmodel.py and",
            "   calculate/statistics.py -- do not edit *)",
-           "From Coq Require Import ZArith QArith Qabs List Bool.",
-           "From DV Require Import Model.PyPrims Gen.BitFns Model.C05Model Model.C05GenPrims.",
+           "From Coq Require Import ZArith QArith Qabs List Bool String.",
+           "From DV Require Import Model.PyPrims Gen.BitFns Model.C05Model Model.C05Spec Model.C05Model2",
+           "     Model.C05GenPrims Model.C05GenPrims2.",
            "Import ListNotations.",
            "Open Scope Z_scope.", ""]
     known = {}
@@ -797,4 +804,6 @@ def generate(repo):
         out.append(compile_fn(entry, trees, known))
         path, cls, pyname, coqname, kind, params, rty, _lt, _x = entry
         known[pyname] = (coqname, kind, [t for _p, t in params], rty)
+    from dv import c05_gen_impl2
+    out.append(c05_gen_impl2.extra(trees, known))
     return "\n".join(out)
